@@ -17,6 +17,9 @@ type PythonIdentListener struct {
 
 var currentCodeFile *core_domain.CodeContainer
 var currentDataStruct *core_domain.CodeDataStruct
+
+// the classes whose definition is open, outermost first (a class may be defined inside a class)
+var openDataStructs []*core_domain.CodeDataStruct
 var debug = false
 var output io.Writer
 var hasEnterMember = false
@@ -24,6 +27,8 @@ var hasEnterMember = false
 func NewPythonIdentListener(fileName string) *PythonIdentListener {
 	currentCodeFile = &core_domain.CodeContainer{}
 	currentCodeFile.FullName = fileName
+	currentDataStruct = nil
+	openDataStructs = nil
 	output = os.Stdout
 
 	return &PythonIdentListener{}
@@ -85,13 +90,28 @@ func (s *PythonIdentListener) EnterClassdef(ctx *parser.ClassdefContext) {
 		dataStruct.Annotations = decorators
 	}
 
+	openDataStructs = append(openDataStructs, dataStruct)
 	currentDataStruct = dataStruct
 }
 
 func (s *PythonIdentListener) ExitClassdef(ctx *parser.ClassdefContext) {
 	hasEnterMember = false
-	currentCodeFile.DataStructures = append(currentCodeFile.DataStructures, *currentDataStruct)
-	currentDataStruct = nil
+	if len(openDataStructs) == 0 {
+		return
+	}
+
+	finished := openDataStructs[len(openDataStructs)-1]
+	openDataStructs = openDataStructs[:len(openDataStructs)-1]
+	if len(openDataStructs) == 0 {
+		currentCodeFile.DataStructures = append(currentCodeFile.DataStructures, *finished)
+		currentDataStruct = nil
+		return
+	}
+
+	// a class defined inside a class: back to the enclosing one
+	enclosing := openDataStructs[len(openDataStructs)-1]
+	enclosing.InnerStructures = append(enclosing.InnerStructures, *finished)
+	currentDataStruct = enclosing
 }
 
 func (s *PythonIdentListener) EnterFuncdef(ctx *parser.FuncdefContext) {
